@@ -110,7 +110,15 @@ func afterWarmups[T any](r *ev.Run, scen string, cases []T, eval func(T) (obs, b
 				}
 			}
 		}
-		return eval(c)
+		obs, bad := eval(c)
+		if bad != "" {
+			return obs, bad
+		}
+		// and the same call once more: same answer
+		if obs2, bad2 := eval(c); bad2 != "" || obs2 != obs {
+			return obs + " / again: " + obs2, "the same call repeated gives another answer: " + bad2
+		}
+		return obs, ""
 	}
 	r.Scenario(scen, func(raw []byte) (string, string) {
 		ac := unjson[afterCase](raw)
